@@ -705,6 +705,56 @@ func TestC06FileTeardown(t *testing.T) {
 	}
 }
 
+// A run interrupted while its setup is still executing (and taking longer than the completion
+// timeout): setup still runs to its end before anything else happens, and every cleanup it
+// registered - before and after the interrupt - runs once, in reverse order, before the run returns.
+func TestC06SlowSetup(t *testing.T) {
+	o := kit.Get()
+	defer o.Close()
+	r := kit.NewRand(kit.Seed() + 69)
+	for i := 0; i < kit.N(3, 20); i++ {
+		var mu sync.Mutex
+		var cleaned []int64
+		var setupDone atomic.Bool
+		ctx, cancel := context.WithCancel(context.Background())
+		slow := time.Duration(r.Range(200, 450)) * time.Millisecond
+		scenario := func(st *f1testing.T) f1testing.RunFn {
+			st.Cleanup(func() { mu.Lock(); cleaned = append(cleaned, 1); mu.Unlock() })
+			cancel() // the interrupt arrives now
+			time.Sleep(slow)
+			st.Cleanup(func() { mu.Lock(); cleaned = append(cleaned, 2); mu.Unlock() })
+			setupDone.Store(true)
+			return func(*f1testing.T) {}
+		}
+		mode := kit.Pick(r, "users", "constant")
+		flags := map[string]string{}
+		if mode == "constant" {
+			flags = map[string]string{"rate": "1/100ms", "distribution": "none"}
+		}
+		out, hung, dump := runkit.DoTimeout(runkit.Config{Mode: mode, Flags: flags, Scenario: scenario, Ctx: ctx, Wait: 100 * time.Millisecond,
+			Opts: options.RunOptions{MaxDuration: 2 * time.Second, Concurrency: 2, IgnoreDropped: true}}, 60*time.Second)
+		cancel()
+		if hung {
+			o.Fail("run-hung", "run interrupted during setup did not return: "+dump[:min(len(dump), 2000)])
+			continue
+		}
+		doneAtReturn := setupDone.Load()
+		mu.Lock()
+		got := append([]int64(nil), cleaned...)
+		mu.Unlock()
+		_ = out
+		if !doneAtReturn || len(got) != 2 || got[0] != 2 || got[1] != 1 {
+			o.Fail("setup-abandoned", fmt.Sprintf("run interrupted %s before its setup ended (completion timeout 100ms): setup finished before Run.Do returned: %v; setup cleanups run at return (2 = registered after the interrupt, 1 = before): %v, want [2 1]", slow, doneAtReturn, got))
+		}
+		ok := int64(0)
+		if !doneAtReturn {
+			ok = 1
+		}
+		o.Count("setup", "interrupted while slow")
+		o.Case("cleanups_once_ok", []string{kit.Ints([]int64{1, 1}), kit.Ints([]int64{int64(len(got)) / 2, (int64(len(got)) + 1) / 2}), kit.I(ok)}, "T", "slow-setup", "nt")
+	}
+}
+
 // ---------------------------------------------------------------- C20: combined scenarios in whole file-triggered runs
 
 // A config-file run starts a pool per stage; an iteration of a combined scenario that is still
